@@ -1,19 +1,19 @@
 #!/bin/bash
 # tools/eval_seed.sh <ID> <A|B> [tier] [extra check ids...]
-# Confirms a seeded change from /tmp/seed/<ID>: applies it to a fresh scratch worktree of /repo,
+# Confirms a seeded change kept under /verif/seeded/<ID>/<A|B>/: applies it to a fresh scratch worktree of /repo,
 # runs the repository tests, the demo on the clean and on the changed tree, and the property's
 # check (plus extra checks) against the changed tree. Never touches /repo.
 ID="$1"; V="$2"; TIER="${3:-quick}"; shift 3 2>/dev/null
-SRC=/tmp/seed/$ID
+SRC=/verif/seeded/$ID/$V
 W=$(mktemp -d /tmp/evalseed.XXXXXX)
 git -C /repo worktree add -q --detach "$W/repo" HEAD || exit 2
 cleanup() { git -C /repo worktree remove --force "$W/repo" 2>/dev/null; rm -rf "$W"; }
 trap cleanup EXIT
-echo "== $ID/$V: $(/venv/bin/python -c "import json;print(json.load(open('$SRC/meta.json'))['$V']['what'])" 2>/dev/null)"
-(cd "$W/repo" && PYTHONPATH="$W/repo/src" timeout 120 /venv/bin/python "$SRC/demo$V.py" >/dev/null 2>&1); echo "demo on clean tree: exit $?"
-git -C "$W/repo" apply "$SRC/mut$V.patch" || { echo "PATCH DOES NOT APPLY"; exit 2; }
+echo "== $ID/$V: $(/venv/bin/python -c "import json;print(json.load(open('$SRC/meta.json'))['what'])" 2>/dev/null)"
+(cd "$W/repo" && PYTHONPATH="$W/repo/src" timeout 120 /venv/bin/python "$SRC/demo.py" >/dev/null 2>&1); echo "demo on clean tree: exit $?"
+git -C "$W/repo" apply "$SRC/patch.diff" || { echo "PATCH DOES NOT APPLY"; exit 2; }
 git -C "$W/repo" diff --stat | tail -1
-(cd "$W/repo" && PYTHONPATH="$W/repo/src" timeout 120 /venv/bin/python "$SRC/demo$V.py" >/dev/null 2>&1); echo "demo on changed tree: exit $?"
+(cd "$W/repo" && PYTHONPATH="$W/repo/src" timeout 120 /venv/bin/python "$SRC/demo.py" >/dev/null 2>&1); echo "demo on changed tree: exit $?"
 if [ "${SKIP_TESTS:-0}" != "1" ]; then
   (cd "$W/repo" && PYTHONPATH="$W/repo/src" timeout 900 /venv/bin/python -m pytest -q -p no:cacheprovider 2>&1 | tail -1)
 fi
